@@ -85,6 +85,9 @@ def run(ctx):
     ctx.guard("R01.6", "semicolon", lambda: semicolon_rule(ctx, "R01.6"))
     ctx.guard("R01.6", "in-attribute", lambda: in_attribute_flag_rule(ctx, "R01.6"))
     ctx.guard("R01.6", "charref-start-states", lambda: charref_start_states_rule(ctx, "R01.6"))
+    ctx.rule("R01.8", "= R14.12 for the HTML tokenizer: the character reference states as transcribed from the standard")
+    from . import charrefspec as _crs
+    ctx.guard("R01.8", "charref-machine", lambda: _crs.charref_machine(ctx, "R01.8", "html"))
     _cmp["n"] = n
     _cmp["programs"] = 2 * len(T["states"]) + len(T["helpers"]) + len(T["charref"])
     ctx.analysed.update(functions=_cmp["programs"], states=len(T["states"]), char_classes=len(T["classes"]))
